@@ -36,6 +36,8 @@ func main() {
 	verbose := flag.Bool("v", false, "verbose")
 	explain := flag.String("explain", "", "print a report file")
 	noCanary := flag.Bool("nocanary", false, "do not add canary overlay")
+	var opaques multiFlag
+	flag.Var(&opaques, "opaque", "debug: canonical callee name kept opaque (repeatable)")
 	var overlays multiFlag
 	flag.Var(&overlays, "overlay", "repoRelativeFile=replacementFile (repeatable)")
 	var subs multiFlag
@@ -118,6 +120,9 @@ func main() {
 			l = *loops
 		}
 		e := w.engine(d, l)
+		for _, o := range opaques {
+			e.opaque[o] = true
+		}
 		var roots []*ssa.Function
 		for _, f := range w.modFns {
 			if strings.Contains(f.String(), *fnName) {
